@@ -9,7 +9,7 @@
 
    consts.soft lists clauses whose violation is a listed known finding (the check
    fills it from known_findings.d): such a deviation is printed as a VF_NOTE
-   "KNOWN:<clause>:<event>:<tid>:<l>" (the check turns every note into a reported
+   "K:<clause>:<event>:<tid>:<l>" (the check turns every note into a reported
    known finding), the code's answer is taken over and the rest of the history is
    still validated.  With an empty list every deviation rejects the trace. *)
 EXTENDS TraceStorage, StorageMore
@@ -70,8 +70,8 @@ MTraceInit ==
 MTraceNext ==
   /\ bad = "none"
   /\ l <= Len(Events)
-  /\ LET v == VerdictM(Ev)
-         c == IF v.c # "" THEN v.c
+  /\ \E v \in {VerdictM(Ev)} :    \* bound once (a LET would be re-evaluated at every use)
+     LET c == IF v.c # "" THEN v.c
               ELSE IF ~StateOK(v.s) THEN "StateOK"
               ELSE IF ~StepLeasesOK(S, v.s) THEN "C25_NoBackdate_NoLoss"
               ELSE ""
